@@ -218,6 +218,8 @@ class Case:
             tags.append("is-nonnumeric-lhs")
         if any(cut_in_ite_cond(terms.from_tla(c["b"])) for c in self.vec["prog"]):
             tags.append("cut-in-ite-cond")
+        if any(typetest_singleton_var(terms.from_tla(c["h"]), terms.from_tla(c["b"])) for c in self.vec["prog"]):
+            tags.append("typetest-singleton-var")
         return ",".join(tags) or "-"
 
 
@@ -256,6 +258,30 @@ def cut_in_ite_cond(t):
     if t[1] == ';' and len(t[2]) == 2 and t[2][0][0] == 'c' and t[2][0][1] == '->' and len(t[2][0][2]) == 2 and tcut(t[2][0][2][0]):
         return True
     return any(cut_in_ite_cond(x) for x in t[2])
+
+
+TYPETESTS = ("var", "nonvar", "atom", "integer", "atomic", "compound", "callable", "number", "is_list")
+
+
+def count_var(t, name):
+    if t[0] == 'v':
+        return 1 if t[1] == name else 0
+    if t[0] == 'c':
+        return sum(count_var(x, name) for x in t[2])
+    return 0
+
+
+def typetest_singleton_var(h, b):
+    """some type-test goal of the clause (var(Z), atom(Z), ...) is applied to a variable that occurs nowhere else in the clause"""
+    whole = ('c', 'cl', (h, b))
+
+    def walk(t):
+        if t[0] != 'c':
+            return False
+        if t[1] in TYPETESTS and len(t[2]) == 1 and t[2][0][0] == 'v' and count_var(whole, t[2][0][1]) == 1:
+            return True
+        return any(walk(x) for x in t[2])
+    return walk(b)
 
 
 def is_nonnumeric_lhs(t):
@@ -391,6 +417,8 @@ def check_vectors(rep, vecs, MI, binary=None):
                     raw.append(x)
                 elif "panic" in x["res"][2]:
                     raw.append({"panic": "consult: " + x["res"][2]["panic"]})
+                elif m == "MA" and len(x["res"]) >= 5 and ("panic" in x["res"][-2] or x["res"][-2].get("tmo")):
+                    raw.append(x["res"][-2])      # the assertz query did not finish: the session was rebuilt, MA could not run
                 else:
                     raw.append(x["res"][-1])
             record(cs, raw)
